@@ -16,13 +16,29 @@ def main():
     common.use_repo_src()
     if job.get("warm"):
         e2e.generate(None, Path(job["root"] + "-warm"), package="warm.pkg", spec_path=Path(job["warm"]))
+    if job.get("warm_same_path"):
+        # an UNRELATED document was generated earlier in this process from the very path the real document is now stored under
+        import shutil
+        real = Path(job["spec"]).read_bytes()
+        shutil.copyfile(job["warm_same_path"], job["spec"])
+        e2e.generate(None, Path(job["root"] + "-warm2"), package=job["package"], core=job.get("core"), spec_path=Path(job["spec"]))
+        Path(job["spec"]).write_bytes(real)
     g = e2e.generate(None, Path(job["root"]), package=job["package"], core=job.get("core"), strategy=job.get("strategy", "operationId"),
                      force=job.get("force", True), spec_path=Path(job["spec"]))
     top = job["package"].split(".")[0]
     tree = {}
     for t in {top, (job.get("core") or job["package"]).split(".")[0]}:
         tree.update({f"{t}/{k}": v for k, v in e2e.tree_hashes(Path(job["root"]) / t).items()})
-    sys.stdout.write(json.dumps({"ok": g["ok"], "error": g["error"], "tree": tree}))
+    out = {"ok": g["ok"], "error": g["error"], "tree": tree}
+    if job.get("rerun") and g["ok"]:
+        # generate ; generate(force=False): must succeed and leave every file untouched
+        import os
+        before = {str(f): (f.stat().st_mtime_ns, f.stat().st_size) for f in Path(job["root"]).rglob("*") if f.is_file()}
+        g2 = e2e.generate(None, Path(job["root"]), package=job["package"], core=job.get("core"), strategy=job.get("strategy", "operationId"),
+                          force=False, spec_path=Path(job["spec"]))
+        after = {str(f): (f.stat().st_mtime_ns, f.stat().st_size) for f in Path(job["root"]).rglob("*") if f.is_file()}
+        out["rerun"] = {"ok": g2["ok"], "error": g2["error"], "touched": sorted(k for k in set(before) | set(after) if before.get(k) != after.get(k))[:10]}
+    sys.stdout.write(json.dumps(out))
 
 
 if __name__ == "__main__":
